@@ -111,12 +111,15 @@ def history_line(cid, ops, codec, page, path, modes=("f",), read=True, dump=True
         toks.append("F:%s" % path)
     if read:
         for m in modes:
-            toks.append("O:%s:%s%s" % (path, m, "" if verify is None else ":%d" % verify))
+            # "f" | "m" | "b", optionally followed by a piece size: the chunk is then read back by repeated
+            # read_batch(piece) calls (D) instead of one call for the whole chunk (R)
+            piece = int(m[1:]) if len(m) > 1 else 0
+            toks.append("O:%s:%s%s" % (path, m[0], "" if verify is None else ":%d" % verify))
             toks.append("M")
             for g in range(ngroups):
                 for c in range(len(cols)):
                     toks.append("K:%d:%d" % (g, c))
-                    toks.append("R:%d" % (total + 3))
+                    toks.append("D:%d" % piece if piece else "R:%d" % (total + 3))
             toks.append("Z")
     return " ".join(toks)
 
@@ -179,6 +182,15 @@ def events_of(cid, ops, toks, with_file=True, layout=False):
             k_sel = val
         elif key == "L":
             pend_stale = True
+        elif key == "D":
+            if k_sel is None or not k_sel.startswith("ok"):
+                continue
+            _, typ, tlen, maxdef, _ = k_sel.split(":")
+            k_sel = None
+            f = val.split(":")
+            # delivered:err:defs:vals -> the shape of an R result (n:defs:reps:vals:remaining); a failed call shows as
+            # a wrong count / remaining
+            ev.append({"_R": "%s:%s:-:%s:%d" % (f[0], f[2], f[3], int(f[5]) if f[1] == "0" else -1), "_type": int(typ), "_tlen": int(tlen)})
         elif key == "R":
             if k_sel is None or not k_sel.startswith("ok"):
                 continue
